@@ -256,7 +256,11 @@ def oracle(planner, ops, out, rc, err):
                 fails.append((i, "exact-not-at-goal", "solution #%d is stored as exact but its last state does not satisfy the goal" % s["idx"]))
             if not s["valid"]:
                 fails.append((i, "invalid-state", "solution #%d contains an invalid state" % s["idx"]))
-            if s["old"] > 0:
+            # roadmap planners keep the roadmap across queries by design (clearQuery(): "retain all datastructures ...
+            # that can help solve the next query"); the previous query's start/goal stay in it as ordinary milestones
+            # and may be INTERMEDIATE vertices of a new path.  Its end points are still judged (start / exact-not-at-goal),
+            # and after clear() the clause applies in full.
+            if s["old"] > 0 and not (planner in ROADMAP and c.endswith("/dirty")):
                 fails.append((i, "old-state", "solution #%d contains %d start/goal state(s) of an earlier query" % (s["idx"], s["old"])))
             if s["ctl"] == "0":
                 fails.append((i, "control-shape", "control path #%d: controls/durations do not match the states" % s["idx"]))
@@ -683,6 +687,83 @@ def lockstep(ck, rn, seed, hname, k, K, ops, planner="RRT"):
     return True
 
 
+# ---------------------------------------------------------------------------------- lock-step (PRM query bookkeeping)
+QGINV = ((0.1, 0.1), (0.33, 0.3))      # goal inside the wall
+
+
+def prm_history(k):
+    kk = min(k, 13)
+    return [q("setpd", QA), "getpd", "solve %d" % k, "getpd", q("mutpd", QB), "getpd", "solve %d" % k, "getpd", "clearQuery", "getpd",
+            "addstart " + pt(QA[0]), "solve %d" % k, "getpd", "clear", "getpd", "solve %d" % k, "getpd", q("setpd", QINV), "getpd",
+            "solve %d" % k, "getpd", q("setsg", QA), "solve %d" % k, "getpd", q("mutpd", QA), "solve %d" % k, "getpd",
+            q("mutpd", QGINV), "solve %d" % kk, "getpd", q("setpd", QB), "solve %d" % k, "getpd"]
+
+
+def prm_lockstep(ck, rn, planner, seed, k):
+    """the model of PRM's startM_/goalM_/PlannerInputStates bookkeeping vs the real planner: number of start and goal
+    milestones reported by getPlannerData after every op, and INVALID_START / INVALID_GOAL / ran for every solve."""
+    ops = prm_history(k)
+    script, out, rc, err = rn.run(planner, seed, ops)
+    ck.traces_validated += 1
+    ck.count("lockstep:histories:" + planner + "(query bookkeeping)")
+    if out is None or len(out) <= len(ops) or rc != 0:
+        _locked_report(ck, {"engine": "proto", "planner": planner, "clause": "crash", "ctx": "lockstep-prm", "history": "prm"},
+                       script=script, observed={"out": out, "rc": rc, "stderr": sanitizer_summary(err)}, engine="proto")
+        return False
+    mops, impl = [], []
+    pid = 0
+    for ln, o in zip(ops, out):
+        op = ln.split()[0]
+        d = kv(o)
+        if op == "setpd":
+            pid += 1
+            mops.append("setpd %d 1 %s %s" % (pid, d["svalid"], d["gvalid"]))
+            impl.append("setpd")
+        elif op in ("mutpd", "setsg"):
+            mops.append("%s 1 %s %s" % (op, d["svalid"], d["gvalid"]))
+            impl.append(op)
+        elif op == "addstart":
+            mops.append("addstart %s" % d["svalid"])
+            impl.append(op)
+        elif op == "solve":
+            mops.append("solve 0")
+            st = d.get("st", "?")
+            impl.append("solve st=%s" % (st if st in ("INVALID_START", "INVALID_GOAL") else "ran"))
+        elif op == "getpd":
+            mops.append("getpd")
+            impl.append("getpd starts=%s goals=%s" % (d["starts"], d["goals"]))
+        else:
+            mops.append(op)
+            impl.append(op)
+    mscript = ["proto core=prm"] + mops
+    model, rc2, err2 = ck.run_bin(ck.driver(DRIVER), mscript)
+    if rc2 != 0:
+        raise RuntimeError("model driver failed: %s" % (err2 or "")[-500:])
+    canon = []
+    for op, m in zip(impl, model):
+        t = m.split()
+        if t[0] == "solve":
+            canon.append(" ".join(t[:2]))
+        elif t[0] == "getpd":
+            canon.append(m)
+        else:
+            canon.append(t[0])
+    d = ck.first_diff(impl, canon)
+    if d is not None:
+        with REPORT_LOCK:
+            ck.disagreements += 1
+            n = ck.disagreements
+        if n <= 3:
+            _locked_report(ck, {"engine": "proto", "what": "model/implementation disagreement (PRM query bookkeeping)"}, script=script,
+                           expected={"model_script": mscript, "model": canon}, observed={"impl": impl, "first_diff": d},
+                           found_input=False, engine="proto",
+                           obligation="correspondence proto: %s vs OmplModel.Model.PlannerProtoPrm, k=%s seed=%s, first differing op %d "
+                                      "(%s): impl %r model %r" % (planner, k, seed, d, ops[d].split()[0], impl[d], canon[d]))
+        ck.log("PRM bookkeeping disagreement %s k=%s seed=%s at op %d" % (planner, k, seed, d))
+        return False
+    return True
+
+
 # ---------------------------------------------------------------------------------- the check
 def corpus():
     d = os.path.join(core.VERIF, "corpus", "C03")
@@ -815,6 +896,15 @@ def run(ck):
                         ljobs.append((s, hn, k, kk + 40, lhs[hn](k, kk + 40), planner))
         with ThreadPoolExecutor(workers) as ex:
             oks = list(ex.map(lambda j: lockstep(ck, rn, j[0], j[1], j[2], j[3], j[4], planner=j[5]), ljobs))
+        pjobs = []
+        for planner in ("PRM", "PRMstar"):
+            for k in ([0, 1, 3, 8, 34, 144] if quick else [0, 1, 2, 3, 5, 8, 13, 21, 34, 55, 89, 144, 233, 377]):
+                for s_ in ([seeds[planner]] if quick else [seeds[planner], r.below(1000)]):
+                    pjobs.append((planner, s_, k))
+        with ThreadPoolExecutor(workers) as ex:
+            poks = list(ex.map(lambda j: prm_lockstep(ck, rn, j[0], j[1], j[2]), pjobs))
+        ck.extra_cov["lockstep_prm_histories"] = len(pjobs)
+        ck.extra_cov["lockstep_prm_agree"] = sum(1 for o in poks if o)
         ck.extra_cov["lockstep_histories"] = len(ljobs)
         ck.extra_cov["lockstep_agree"] = sum(1 for o in oks if o)
         ck.extra_cov["lockstep_control_draw_kinds"] = dict(CTL_DRAW_KINDS)
